@@ -67,26 +67,22 @@ theorem setOn_players (s : St) (i : Nat) (k : String) (v : Val) :
 theorem setOn_cur (s : St) (i : Nat) (k : String) (v : Val) : (setOn s i k v).1.cur = s.cur := rfl
 theorem setOn_dev (s : St) (i : Nat) (k : String) (v : Val) : (setOn s i k v).1.dev = s.dev := rfl
 
-theorem modeStart_cur (s : St) (i : Nat) : (modeStart s i).cur = s.cur := by unfold modeStart; split <;> rfl
-theorem modeStart_dev (s : St) (i : Nat) : (modeStart s i).dev = some i := by unfold modeStart; split <;> rfl
-theorem modeStart_other (s : St) (i q : Nat) (h : q ≠ i) : (modeStart s i).players[q]? = s.players[q]? := by
-  unfold modeStart; split
-  · rfl
-  · exact modify_get_other _ _ _ _ h
-theorem modeStart_length (s : St) (i : Nat) : (modeStart s i).players.length = s.players.length := by
-  unfold modeStart; split
-  · rfl
-  · exact modify_length _ _ _
+theorem modeStart_cur (c : Cfg) (s : St) (i : Nat) : (modeStart c s i).cur = s.cur := rfl
+theorem modeStart_dev (c : Cfg) (s : St) (i : Nat) : (modeStart c s i).dev = some i := rfl
+theorem modeStart_other (c : Cfg) (s : St) (i q : Nat) (h : q ≠ i) : (modeStart c s i).players[q]? = s.players[q]? :=
+  modify_get_other _ _ _ _ h
+theorem modeStart_length (c : Cfg) (s : St) (i : Nat) : (modeStart c s i).players.length = s.players.length :=
+  modify_length _ _ _
 
-theorem turnStart_cur (s : St) (i : Nat) : (turnStart s i).1.cur = i := by
+theorem turnStart_cur (c : Cfg) (s : St) (i : Nat) : (turnStart c s i).1.cur = i := by
   unfold turnStart; simp only []; rw [modeStart_cur]; rfl
-theorem turnStart_dev (s : St) (i : Nat) : (turnStart s i).1.dev = some i := by
-  unfold turnStart; simp only []; exact modeStart_dev _ _
-theorem turnStart_other (s : St) (i q : Nat) (h : q ≠ i) : (turnStart s i).1.players[q]? = s.players[q]? := by
+theorem turnStart_dev (c : Cfg) (s : St) (i : Nat) : (turnStart c s i).1.dev = some i := by
+  unfold turnStart; simp only []; exact modeStart_dev _ _ _
+theorem turnStart_other (c : Cfg) (s : St) (i q : Nat) (h : q ≠ i) : (turnStart c s i).1.players[q]? = s.players[q]? := by
   unfold turnStart; simp only []
-  rw [modeStart_other _ _ _ h, setOn_players]
+  rw [modeStart_other _ _ _ _ h, setOn_players]
   exact modify_get_other _ _ _ _ h
-theorem turnStart_length (s : St) (i : Nat) : (turnStart s i).1.players.length = s.players.length := by
+theorem turnStart_length (c : Cfg) (s : St) (i : Nat) : (turnStart c s i).1.players.length = s.players.length := by
   unfold turnStart; simp only []
   rw [modeStart_length, setOn_players, modify_length]
 
@@ -124,7 +120,14 @@ theorem inv_step (c : Cfg) (s : St) (op : Op) (h : Inv s) : Inv (step c s op).1 
       · refine ⟨h1, fun _ => ?_⟩
         rw [setOn_players, setOn_cur, modify_length]; exact h2 (by assumption)
       · exact ⟨h1, h2⟩
-  | hit =>
+  | dev d code =>
+    simp only [step]
+    split
+    · exact ⟨h1, h2⟩
+    · refine ⟨h1, fun hp => ?_⟩
+      simp only [modify_length] at hp ⊢
+      exact h2 (by intro e; simp [e, modify] at hp)
+  | swap d1 d2 =>
     simp only [step]
     split
     · exact ⟨h1, h2⟩
@@ -177,7 +180,18 @@ theorem frame_step (c : Cfg) (s : St) (op : Op) (h : Inv s) (q : Nat) (hq : q < 
     · split
       · rw [setOn_players]; exact modify_get_other _ _ _ _ h1
       · rfl
-  | hit =>
+  | dev d code =>
+    simp only [step]
+    split
+    · rfl
+    · rename_i p hp
+      have : p = s.cur := by
+        rcases h.1 with e | e
+        · rw [e] at hp; cases hp
+        · rw [e] at hp; cases hp; rfl
+      subst this
+      exact modify_get_other _ _ _ _ h1
+  | swap d1 d2 =>
     simp only [step]
     split
     · rfl
@@ -193,14 +207,14 @@ theorem frame_step (c : Cfg) (s : St) (op : Op) (h : Inv s) (q : Nat) (hq : q < 
     split
     · rfl
     · split
-      · rw [modeStart_other _ _ _ h1, setOn_players]
+      · rw [modeStart_other _ _ _ _ h1, setOn_players]
         exact modify_get_other _ _ _ _ h1
       · split
         · rename_i hx; simp [*] at hg
         · rename_i hp hx hy
           simp only [hp, hx, hy, if_false] at h2
           rw [turnStart_cur] at h2
-          rw [turnStart_other _ _ _ h2]
+          rw [turnStart_other _ _ _ _ h2]
   | endGame => simp [step] at hg
 
 end MpfVerif.Player
@@ -225,7 +239,8 @@ theorem step_length_mono (c : Cfg) (s : St) (op : Op) (hg : (step c s op).1.play
     simp only [step]; split
     · simp
     · split <;> simp [setOn_players, modify_length]
-  | hit => simp only [step]; split <;> simp [modify_length]
+  | dev d code => simp only [step]; split <;> simp [modify_length]
+  | swap d1 d2 => simp only [step]; split <;> simp [modify_length]
   | drain =>
     simp only [step] at hg ⊢
     split
@@ -236,5 +251,40 @@ theorem step_length_mono (c : Cfg) (s : St) (op : Op) (hg : (step c s op).1.play
         · rename_i hx; simp [*] at hg
         · simp [turnStart_length]
   | endGame => simp [step] at hg
+
+end MpfVerif.Player
+
+namespace MpfVerif.Player
+
+/-- device keys are pairwise different and none of them is a variable the game itself writes at ball start -/
+def KeysOK (c : Cfg) : Prop :=
+  (c.devs.map (·.key)).Nodup ∧ ∀ d ∈ c.devs, d.key ≠ "ball" ∧ d.key ≠ "extra_balls"
+
+/-- the state device `d` takes when the mode starts on dictionary `m` -/
+def loaded (d : Dev) (m : Vars) : Val := match get m d.key with | some v => d.load v | none => d.fresh
+
+theorem loadAll_other (devs : List Dev) (m : Vars) (k : String) (h : k ∉ devs.map (·.key)) :
+    get (loadAll devs m) k = get m k := by
+  induction devs generalizing m with
+  | nil => rfl
+  | cons d r ih =>
+    simp only [List.map_cons, List.mem_cons, not_or] at h
+    rw [loadAll, ih _ h.2, get_put_other _ _ _ _ h.1]
+
+theorem loadAll_get (devs : List Dev) (m : Vars) (hn : (devs.map (·.key)).Nodup) (d : Dev) (hd : d ∈ devs) :
+    get (loadAll devs m) d.key = some (loaded d m) := by
+  induction devs generalizing m with
+  | nil => simp at hd
+  | cons d0 r ih =>
+    simp only [List.map_cons, List.nodup_cons] at hn
+    rw [loadAll]
+    rcases List.mem_cons.mp hd with e | e
+    · subst e
+      rw [loadAll_other _ _ _ hn.1, get_put_same]; rfl
+    · have hk : d.key ≠ d0.key := by
+        intro e2; exact hn.1 (e2 ▸ List.mem_map_of_mem e)
+      rw [ih _ hn.2 e]
+      unfold loaded
+      rw [get_put_other _ _ _ _ hk]
 
 end MpfVerif.Player
